@@ -44,10 +44,12 @@ def run(case, ctx):
     ctx.label("shared_value_name", int(len(set(names)) < len(names)))
     tol = max([R.agg_tolerance(v["values"]) for v in case["vals"]] + [1e-9])
 
-    def recorder(vals):
-        # a custom function may look at its group more than once (max(v) - min(v), len(v), v[0]): two passes here
+    def recorder(vals, extra=None):
+        # a custom function may look at its group more than once (max(v) - min(v), len(v), v[0]): two passes here; it may have
+        # further, defaulted, parameters (nothing but the group is ever passed); and what it returns is one value for the group -
+        # also when that value happens to be a list as long as the group
         first, second = list(vals), list(vals)
-        return repr((first, second))
+        return [repr((x, len(second), extra)) for x in first]
 
     over_arg, kw = R.group_call_args(case, over, vspecs, recorder)
     ctx.ev()
